@@ -285,6 +285,7 @@ LIFT_FLOATS = True
 
 def reset_sqrt():
     _SQ.clear()
+    _EXP_ATOMS.clear()
 
 
 def sqrt_axioms():
@@ -606,9 +607,19 @@ class S:
         return sym_exp(self)
 
 
-# uninterpreted exp: exp(x+iy) -> (ER(x,y), EI(x,y)) with exp(0)=1; congruence only
-_EXP_RE = z3.Function("exp_re", z3.RealSort(), z3.RealSort(), z3.RealSort())
-_EXP_IM = z3.Function("exp_im", z3.RealSort(), z3.RealSort(), z3.RealSort())
+# uninterpreted exp: exp(x+iy) -> a pair of atoms (fresh Real constants) per distinct
+# simplified argument; exp(0) = 1; nothing but congruence on syntactically equal
+# (after z3.simplify) arguments is assumed.  Atoms instead of z3 Functions keep the
+# queries in pure QF_NRA (z3 is far slower on QF_UFNRA).
+_EXP_ATOMS = {}
+
+
+def reset_exp():
+    _EXP_ATOMS.clear()
+
+
+def exp_atoms():
+    return dict(_EXP_ATOMS)
 
 
 def sym_exp(x):
@@ -618,8 +629,16 @@ def sym_exp(x):
             return S(1)
         import cmath
         return S.of(cmath.exp(complex(x)))
-    a, b = z3.simplify(zr(x.re)), z3.simplify(zr(x.im))
-    return S(_EXP_RE(a, b), _EXP_IM(a, b))
+    a = z3.simplify(zr(x.re), som=True) if not isinstance(x.re, Fraction) else zr(x.re)
+    b = z3.simplify(zr(x.im), som=True) if not isinstance(x.im, Fraction) else zr(x.im)
+    key = (a.sexpr(), b.sexpr())
+    if key not in _EXP_ATOMS:
+        k = len(_EXP_ATOMS)
+        _EXP_ATOMS[key] = (z3.Real("expR!%d" % k), z3.Real("expI!%d" % k), a, b)
+    er, ei = _EXP_ATOMS[key][:2]
+    if isinstance(x.im, Fraction) and x.im == 0:
+        return S(er)            # exp of a real number is real
+    return S(er, ei)
 
 
 # --------------------------------------------------------------------------
